@@ -8,7 +8,7 @@
    arrived and been registered) — the model's reading of "no further event". *)
 From Coq Require Import List NArith Bool Arith.
 From Coq Require Import String.
-From Wesh Require Import Model.C08_Pipeline Proofs.C08_Pipeline Gen.Pipeline GenFacts.PipelineFacts.
+From Wesh Require Import Model.C08_Pipeline Proofs.C08_Pipeline Proofs.C08_Termination Gen.Pipeline GenFacts.PipelineFacts.
 Import ListNotations.
 Open Scope N_scope.
 
@@ -78,6 +78,26 @@ Theorem C08_source_skeleton :
    pipe_returns = (2, 0)%nat)%string.
 Proof. exact pipeline_shape. Qed.
 
+(* termination: no schedule is infinite - the step relation is well founded on the states that satisfy
+   the invariant (all reachable ones), so "once nothing can move" above is not a vacuous premise: every
+   run gets there.  The measure: flushes still possible, then the distance of messages and registrar
+   from the end of their path (Proofs/C08_Termination.v) *)
+Theorem C08_terminates :
+  (forall s, Inv s -> Acc steps_to s) /\
+  (forall arr rs (f : nat -> thread), ~ (forall n, exists s, follow (init arr rs) (prefix f n) = Some s)).
+Proof. exact (conj terminates no_infinite_schedule). Qed.
+
+(* liveness: from every reachable state the run can be completed, and at its end - at the end of ANY
+   run, by C08_every_decryptable_delivered - every entry that opens has been delivered *)
+Theorem C08_eventually_delivered :
+  forall arr rs s,
+    reachable (init arr rs) s ->
+    exists ts s', follow s ts = Some s' /\ quiescent s' /\
+                  forall m, In m arr -> decryptable (keys s') m = true -> In m (delivered s').
+Proof. exact eventually_delivered. Qed.
+
+Print Assumptions C08_terminates.
+Print Assumptions C08_eventually_delivered.
 Print Assumptions C08_source_skeleton.
 Print Assumptions C08_every_decryptable_delivered.
 Print Assumptions C08_delivered_once_per_arrival.
